@@ -126,6 +126,10 @@ def evidence_dir() -> Path:
 
 def write_evidence(rep: Report, violations: int, known: list[str]) -> None:
     EVIDENCE = evidence_dir()
+    if not rep.property_id.startswith("C"):
+        # extension checks (./check X..: behaviour beyond the listed properties, DESIGN.md 8.5)
+        # are not claimed in MANIFEST.json; their coverage record is kept apart
+        EVIDENCE = EVIDENCE.parent / (EVIDENCE.name + "-ext")
     EVIDENCE.mkdir(parents=True, exist_ok=True)
     cov = {
         "states": rep.states,
